@@ -40,9 +40,9 @@ EXTENDS Integers, Sequences, FiniteSets, TLC, Json
 PC == INSTANCE PrintConc WITH
         ModulePrinters <- {}, FuncPrinters <- {}, BlockPrinters <- {}, NG <- 0, NF <- 0, NL <- 0, MdCase <- 0,
         WriteOnlyIfChanged <- TRUE, StartPrinted <- TRUE, CachePrefilled <- TRUE,
-        LockGlobals <- TRUE, LockLocals <- TRUE, GCachePrefilled <- TRUE, FillGlobalCachesUnderLock <- FALSE, SharedScratch <- FALSE, StaleLocals <- FALSE, Orphans <- {}, LockViaParent <- FALSE,
+        LockGlobals <- TRUE, LockLocals <- TRUE, GCachePrefilled <- TRUE, FillGlobalCachesUnderLock <- FALSE, SharedScratch <- FALSE, StaleLocals <- FALSE, Orphans <- {}, LockViaParent <- FALSE, NumberUpFront <- TRUE,
         gid <- <<>>, mid <- <<>>, lid <- <<>>, typ <- <<>>, gtyp <- <<>>, scratch <- 0, mmu <- 0, fmu <- <<>>, bad <- <<>>,
-        pc <- <<>>, c <- <<>>, f <- <<>>, last <- <<>>, tmp <- <<>>
+        pc <- <<>>, c <- <<>>, f <- <<>>, last <- <<>>, tmp <- <<>>, pre <- <<>>
 
 Trace == ndJsonDeserialize("printconc_trace.ndjson")
 N == Len(Trace)
